@@ -21,8 +21,40 @@ type c11Case struct {
 	NoSSSE3 bool   `json:"nossse3,omitempty"` // run with the SSSE3 dispatch flag forced off (the row kernels then take the scalar path)
 }
 
+// toG builds the gopar matrix, alternately through NewMatrixFromFunction and through NewMatrixFromSlice over a window
+// of a long-lived arena that is overwritten right after the call (a caller that assembles rows in a reused buffer): the
+// matrix has to be a value of its own from then on.
+var (
+	c11Arena     = make([]gf2p16.T, 1<<16)
+	c11ToGCount  int
+	c11AliasSeen string
+)
+
 func toG(m lin.M) gf2p16.Matrix {
-	return gf2p16.NewMatrixFromFunction(len(m), len(m[0]), func(i, j int) gf2p16.T { return gf2p16.T(m[i][j]) })
+	c11ToGCount++
+	rows, cols := len(m), len(m[0])
+	if c11ToGCount%2 == 0 || rows*cols+3 > len(c11Arena) {
+		return gf2p16.NewMatrixFromFunction(rows, cols, func(i, j int) gf2p16.T { return gf2p16.T(m[i][j]) })
+	}
+	win := c11Arena[3 : 3+rows*cols]
+	for i := 0; i < rows; i++ {
+		for j := 0; j < cols; j++ {
+			win[i*cols+j] = gf2p16.T(m[i][j])
+		}
+	}
+	g := gf2p16.NewMatrixFromSlice(rows, cols, win)
+	for i := range win {
+		win[i] ^= 0x5a5a
+	}
+	for i := 0; i < rows && c11AliasSeen == ""; i++ {
+		for j := 0; j < cols; j++ {
+			if uint16(g.At(i, j)) != m[i][j] {
+				c11AliasSeen = fmt.Sprintf("a %dx%d matrix built by NewMatrixFromSlice changed at (%d,%d) when the caller reused the slice afterwards", rows, cols, i, j)
+				break
+			}
+		}
+	}
+	return g
 }
 
 func fromG(g gf2p16.Matrix, r, c int) lin.M {
@@ -281,6 +313,12 @@ func c11Gen(g *core.Gen) {
 
 func c11Run(ci interface{}, r *core.Rec) {
 	c := ci.(*c11Case)
+	defer func() {
+		if c11AliasSeen != "" {
+			r.Violate("matrix-shares-storage-with-its-source-slice", c11AliasSeen)
+			c11AliasSeen = ""
+		}
+	}()
 	if c.NoSSSE3 {
 		old := gf2p16.VerifSetUseSSSE3(false)
 		defer gf2p16.VerifSetUseSSSE3(old)
@@ -461,7 +499,7 @@ func init() {
 		ID:    "C11",
 		Level: "model_checking",
 		Rule: "bounded-exhaustive matrices: EVERY n x n matrix over an alphabet (n=1,2 over {0,1,2,3,0x100b,0xffff}; n=3 over {0,1,2,0xffff}; n=4 over {0,1}, thorough over {0,1,2} = 3^16); every permutation matrix and permutation x diagonal for n<=7; for n in 5..40,100(,300): Vandermonde, Cauchy, triangular, rank n-1 with the dependent row at every position, a needed row swap at every pivot position (adjacent and with the last row), a zero column at every position; RowReduceForInverse with N=I and a non-square N; Times on every pair of shapes <=3x3x3 over a 4-symbol alphabet and on 2 x k x 3 / 3 x k x 2 products for inner dimensions k around every power of two from 16 to 512 (dense rows, one zero per row, one non-zero per row). " +
-			"Oracle: reference determinant (cofactor) and adjugate for n<=4, reference elimination rank + products for larger n; operands compared element-wise before/after each call, and the operands of the last 12 calls (successful or failed) again after every later call. non-trivial = chunk containing both singular and non-singular matrices / structured family",
+			"Every other operand is built by NewMatrixFromSlice over a window of a reused arena that is overwritten right after construction. Oracle: reference determinant (cofactor) and adjugate for n<=4, reference elimination rank + products for larger n; operands compared element-wise before/after each call, and the operands of the last 12 calls (successful or failed) again after every later call. non-trivial = chunk containing both singular and non-singular matrices / structured family",
 		Assumptions: []string{"ref/lin uses a different elimination order (last candidate pivot) and cofactor expansion; it shares only ref/gf16 with nothing of gopar"},
 		NewCase:     func() interface{} { return &c11Case{} },
 		Gen:         c11Gen,
